@@ -601,14 +601,18 @@ pub fn judge_context(tags: &[&str], rec: &mut spec::record::Recorder) {
 /// released together, as the first calls into the crate of this process, and once more later;
 /// the rendered outcomes must be the same (the later ones are judged by the ordinary workload).
 pub fn cold_start_equal(rec: &mut spec::record::Recorder, what: &str, inputs: &[Vec<u8>], f: &(dyn Fn(&[u8]) -> String + Sync)) {
-    let outs = spec::engine::race_start(12, |t| (0..inputs.len()).map(|k| f(&inputs[(k + 3 * t) % inputs.len()])).collect::<Vec<String>>());
+    // every child process starts from another input (a "nothing seen yet" state is primed by
+    // whatever comes first); every third one makes its first calls from one thread only
+    let rot = spec::engine::cold_rot();
+    let nthreads = if rot % 3 == 2 { 1 } else { 12 };
+    let outs = spec::engine::race_start(nthreads, |t| (0..inputs.len()).map(|k| f(&inputs[(rot + k + 3 * t) % inputs.len()])).collect::<Vec<String>>());
     for (t, list) in outs.iter().enumerate() {
         for (k, o) in list.iter().enumerate() {
-            let x = &inputs[(k + 3 * t) % inputs.len()];
+            let x = &inputs[(rot + k + 3 * t) % inputs.len()];
             let later = f(x);
             rec.events(2);
             if *o != later {
-                rec.violation("cold-start-race", enc_case("any", x), "cold-start".into(), format!("cold start: thread {} of 12, among the first calls of the process, {} on {:?} gave {}; the same call later gives {}", t, what, spec::json::show(x, 40), &o[..o.len().min(200)], &later[..later.len().min(200)]));
+                rec.violation("cold-start-race", enc_case("any", x), "cold-start".into(), format!("cold start: thread {} of {}, among the first calls of the process, {} on {:?} gave {}; the same call later gives {}", t, nthreads, what, spec::json::show(x, 40), &o[..o.len().min(200)], &later[..later.len().min(200)]));
                 return;
             }
         }
@@ -624,7 +628,18 @@ pub fn cold_inputs() -> Vec<Vec<u8>> {
         b"PROXY UNKNOWN anything at all\r\n".to_vec(),
         b"PROXY TCP4 10.1.2.3 10.4.5".to_vec(),
         b"proxy tcp4 1.2.3.4 5.6.7.8 1 2\r\n".to_vec(),
+        Vec::new(),
+        vec![0u8; 40],
+        b"\r\n".to_vec(),
+        b"PROXY \r\n".to_vec(),
+        b"PROXY UNKNOWN\r\n".to_vec(),
     ];
+    // the signature followed by nothing but zero bytes, by nothing but ones, by an unknown version
+    for fill in [0x00u8, 0xFF, 0x31] {
+        let mut b = spec::v2::SIG.to_vec();
+        b.extend_from_slice(&[fill; 24]);
+        v.push(b);
+    }
     for i in 0..12u64 {
         let (vc, fp) = spec::v2::valid_ctl(i * 2 + 1);
         let mut rng = spec::rng::Rng::new(i ^ 0xC01D);
@@ -633,4 +648,155 @@ pub fn cold_inputs() -> Vec<Vec<u8>> {
         v.push(b);
     }
     v
+}
+
+// ---------------------------------------------------------------------------------------------
+// the whole public API applied to one input, rendered as text
+
+/// Every part of the public API that can be reached from one byte string: the three parsers and
+/// the `&str` / `FromStr` entry points, the views, owned copies and formatting of whatever they
+/// accept, the TLV walk, two rebuilds through the builder, the encoders, and the conversions of
+/// the decoded endpoints. All of it is specified as a pure function of `x`, so the text must not
+/// depend on when, where or on which thread it is computed (cold-start probe, calling contexts).
+pub fn api_digest(x: &[u8]) -> String {
+    use ppp::v2::WriteToHeader;
+    use std::fmt::Write as _;
+    let mut s = String::new();
+    let part = |s: &mut String, name: &str, r: Result<String, String>| {
+        let _ = write!(s, "[{}: {}]", name, r.unwrap_or_else(|m| format!("PANIC {}", m)));
+    };
+    part(&mut s, "v2", guard(|| format!("{:?}", v2_parse(x))));
+    part(&mut s, "v1", guard(|| format!("{:?}", v1_bytes(x))));
+    part(&mut s, "auto", guard(|| format!("{:?}", auto_parse(x))));
+    if let Ok(t) = std::str::from_utf8(x) {
+        part(&mut s, "text", guard(|| format!("{:?} {:?} {:?}", v1_str(t), v1_fromstr_header(t), v1_fromstr_addr(t))));
+    }
+    part(&mut s, "v1-views", guard(|| match v1::Header::try_from(x) {
+        Ok(h) => {
+            let o = h.to_owned();
+            let conv = match h.addresses {
+                v1::Addresses::Tcp4(a) => {
+                    let p = (std::net::SocketAddr::from((a.source_address, a.source_port)), std::net::SocketAddr::from((a.destination_address, a.destination_port)));
+                    format!("{:?} {:?} {:?}", v1::Addresses::from(p), v2::Addresses::from(p), v1::Addresses::new_tcp4(a.source_address, a.destination_address, a.source_port, a.destination_port))
+                }
+                v1::Addresses::Tcp6(a) => {
+                    let p = (std::net::SocketAddr::from((a.source_address, a.source_port)), std::net::SocketAddr::from((a.destination_address, a.destination_port)));
+                    format!("{:?} {:?} {:?}", v1::Addresses::from(p), v2::Addresses::from(p), v2::IPv6::new(a.source_address, a.destination_address, a.source_port, a.destination_port))
+                }
+                v1::Addresses::Unknown => String::new(),
+            };
+            format!("{}|{}|{}|{}|{:>3}|{:?}|{}|{}", h.protocol(), h.addresses_str(), h, h.addresses, h.addresses, o, o == h, conv)
+        }
+        Err(e) => format!("{} {} {}", e, e.is_incomplete(), e.is_complete()),
+    }));
+    part(&mut s, "v2-views", guard(|| match v2::Header::try_from(x) {
+        Ok(h) => {
+            let o = h.to_owned();
+            let items: Vec<_> = h.tlvs().take(40).collect();
+            let raw = v2::Builder::new(h.header[12], h.header[13])
+                .write_payload(h.address_bytes())
+                .and_then(|b| b.write_payload(h.tlv_bytes()))
+                .and_then(|b| b.build())
+                .map_err(|e| e.kind());
+            let dec = v2::Builder::with_addresses(h.header[12], h.protocol, h.addresses)
+                .write_payloads(h.tlvs().filter_map(|t| t.ok()))
+                .and_then(|b| b.build())
+                .map_err(|e| e.kind());
+            let tb = h.addresses.to_bytes().map_err(|e| e.kind());
+            let first = h.tlvs().next().and_then(|t| t.ok()).map(|t| (t.to_owned().to_bytes().map_err(|e| e.kind()), (t.kind, t.value.as_ref()).to_bytes().map_err(|e| e.kind())));
+            format!("{}|{:?}|{}|{}|{:?}|{:?}|{:?}|{:?}|{}|{:?}|{:?}|{:?}|{:?}", h.length(), h.address_family(), h.address_bytes().len(), h.tlv_bytes().len(), h.command, h.protocol, h.addresses, items, o == h, raw, dec, tb, first)
+        }
+        Err(e) => format!("{} {} {}", e, e.is_incomplete(), e.is_complete()),
+    }));
+    part(&mut s, "section", guard(|| {
+        let t = v2::TypeLengthValues::from(&x[..x.len().min(600)]);
+        let n = t.clone().count();
+        let items: Vec<_> = t.clone().take(40).collect();
+        format!("{} {} {:?} {:?}", t.len(), n, items, t.to_bytes().map(|b| b.len()).map_err(|e| e.kind()))
+    }));
+    part(&mut s, "encoders", guard(|| {
+        let k = x.len() as u64 ^ 0x0102_0304_0506_0708;
+        format!("{:?} {:?} {:?} {:?} {:?}", (k as u16).to_bytes().ok(), (k as i32).to_bytes().ok(), (k as u128 * 3).to_bytes().ok(), v2::Type::NoOp.to_bytes().ok(), x[..x.len().min(20)].to_bytes().ok())
+    }));
+    s
+}
+
+/// The cold-start probe every monitor runs unless it has a sharper one of its own: the first calls
+/// of the process go through the whole API from twelve threads at once.
+pub fn default_cold_start(rec: &mut spec::record::Recorder) {
+    cold_start_equal(rec, "the whole public API (api_digest)", &cold_inputs(), &api_digest);
+}
+
+/// The same digest from the three calling contexts (ordinary, second call of the thread, the
+/// destructor of a thread-local created before the thread's first call into the crate).
+pub fn judge_digest_contexts(rec: &mut spec::record::Recorder) {
+    struct G(std::sync::Arc<std::sync::Mutex<Option<Vec<String>>>>);
+    impl Drop for G {
+        fn drop(&mut self) {
+            let r = catch_unwind(AssertUnwindSafe(|| cold_inputs().iter().map(|x| api_digest(x)).collect::<Vec<String>>())).unwrap_or_else(|_| vec!["PANIC: unwound out of the digest".to_string()]);
+            if let Ok(mut g) = self.0.lock() {
+                *g = Some(r);
+            }
+        }
+    }
+    thread_local! {
+        static SLOT: RefCell<Option<G>> = const { RefCell::new(None) };
+    }
+    let slot = std::sync::Arc::new(std::sync::Mutex::new(None));
+    let slot2 = slot.clone();
+    let h = std::thread::spawn(move || {
+        SLOT.with(|t| *t.borrow_mut() = Some(G(slot2)));
+        let a: Vec<String> = cold_inputs().iter().map(|x| api_digest(x)).collect();
+        let b: Vec<String> = cold_inputs().iter().map(|x| api_digest(x)).collect();
+        (a, b)
+    });
+    rec.case(0xD16E_57, true);
+    let (a, b) = match h.join() {
+        Ok(x) => x,
+        Err(_) => {
+            rec.class("MONITOR-INTERNAL-PANIC", || "digest thread".to_string());
+            return;
+        }
+    };
+    let c = slot.lock().ok().and_then(|mut g| g.take()).unwrap_or_default();
+    let here: Vec<String> = cold_inputs().iter().map(|x| api_digest(x)).collect();
+    rec.events(4 * a.len() as u64);
+    let inputs = cold_inputs();
+    let diff = |p: &str, q: &str| -> String {
+        let at = p.bytes().zip(q.bytes()).position(|(x, y)| x != y).unwrap_or(p.len().min(q.len()));
+        let cut = |t: &str| {
+            let mut lo = at.saturating_sub(60);
+            while !t.is_char_boundary(lo) {
+                lo -= 1;
+            }
+            let mut hi = (at + 100).min(t.len());
+            while !t.is_char_boundary(hi) {
+                hi += 1;
+            }
+            t[lo..hi].to_string()
+        };
+        format!("...{}... versus ...{}...", cut(p), cut(q))
+    };
+    let mut bad = false;
+    for (i, x) in inputs.iter().enumerate() {
+        for (ctx, other) in [("second call on the thread", b.get(i)), ("thread-local destructor at thread exit", c.get(i)), ("another thread", here.get(i))] {
+            let differs = match other {
+                Some(o) => *o != a[i],
+                None => true,
+            };
+            if differs || a[i].contains("PANIC") {
+                bad = true;
+                rec.violation(
+                    &format!("calling-context:{}", ctx.split(' ').next().unwrap_or("ctx")),
+                    enc_case("any", x),
+                    "context|digest".into(),
+                    format!("the public API applied to {:?}: first call on a fresh thread versus {}: {}", spec::json::show(x, 40), ctx, other.map(|o| diff(&a[i], o)).unwrap_or_else(|| "no result (the destructor did not run or did not finish)".into())),
+                );
+                break;
+            }
+        }
+    }
+    if !bad {
+        rec.class("calling-context|whole API: first = second = destructor = other thread", || format!("{} inputs", inputs.len()));
+    }
 }
